@@ -368,14 +368,12 @@ theorem xp_members : ∀ (ms : List (Bytes × EV)) (lvl lvl0 : Nat) (started : B
       exact ⟨j, close_object k K acc L P j .WAIT_COMMA_OR_PROPERTY (Or.inl (Or.inr rfl)) rest L' P' hput⟩
   | (key, v) :: t, lvl, lvl0, started, hw, acc, k, K, L, P, j, rest, S, hS, hdep, L', P', hput => by
     simp only [encMembers, xnormM, hj, Bool.false_or] at hput ⊢
-    cases hok : (okV v && decide (key ≠ classKey))
+    cases hok : (okV v && !skipCls key v)
     · simp only [hok, Bool.false_eq_true, if_false] at hput ⊢
       exact xp_members t lvl lvl0 started hw.2 acc k K L P j rest S hS (by simp [xdepthM] at hdep; omega) L' P' hput
     · simp only [hok, if_true] at hput ⊢
-      have hkne : key ≠ classKey := by simp at hok; exact hok.2
-      rcases hw.1 with ⟨hk, _⟩ | ⟨hvk, hwv⟩
-      · exact absurd hk hkne
-      obtain ⟨c0, cs, rfl, hc0, hcs, _⟩ := hvk
+      obtain ⟨hvk, hwv⟩ := hw.1
+      obtain ⟨c0, cs, rfl, hc0, hcs⟩ := hvk
       obtain ⟨h47, _, _, _⟩ := keyStart_facts hc0
       obtain ⟨h44, hsp⟩ := keyStart_more hc0
       simp only [sep2, hp, hj, Bool.not_false, Bool.true_and, if_true, List.append_assoc, List.nil_append,
@@ -479,9 +477,7 @@ theorem xencMembers_nonul' : ∀ (ms : List (Bytes × EV)) (lvl : Nat) (started 
     simp only [encMembers, hj, Bool.false_or]
     split
     · rename_i hok
-      have hkne : k ≠ classKey := by simp at hok; exact hok.2
-      rcases hw.1 with ⟨hk, _⟩ | ⟨hvk, hwv⟩
-      · exact absurd hk hkne
+      obtain ⟨hvk, hwv⟩ := hw.1
       have h1 := validKey_nonul hvk
       have h2 := xenc_nonul' v lvl hwv
       have h3 := xencMembers_nonul' t lvl true hw.2
